@@ -138,3 +138,78 @@ def replay_by_rerun(prop, path, make_ck, explore):
     if not hits and not same_kind:
         print(f"not reproduced on the current code ({len(ck.violations)} other violations)")
     raise SystemExit(1 if (hits or same_kind) else 0)
+
+
+# ---------------------------------------------------------------------------------------------
+# generic "glue" checks for numerical functions: the translator sees only the arithmetic, so
+# aliasing, dtype conversions and memory layout are exercised on the real code here.
+
+def relayout(np, rng, a):
+    """the same values in a different memory layout: (array, tag)"""
+    a = np.asarray(a)
+    k = rng.choice(["C", "F", "strided", "negstride", "readonly"])
+    if k == "C" or a.ndim == 0:
+        return np.ascontiguousarray(a), "C"
+    if k == "F":
+        return (np.asfortranarray(a) if a.ndim >= 2 else a.copy()), "F"
+    if k == "strided":
+        big = np.zeros(tuple(2 * s for s in a.shape), dtype=a.dtype)
+        sl = tuple(slice(None, None, 2) for _ in a.shape)
+        big[sl] = a
+        return big[sl], "strided"
+    if k == "negstride":
+        sl = tuple(slice(None, None, -1) for _ in a.shape)
+        return a[sl].copy()[sl], "negstride"
+    r = a.copy()
+    r.setflags(write=False)
+    return r, "readonly"
+
+
+def same(np, u, v, rtol=0.0):
+    u, v = np.asarray(u), np.asarray(v)
+    if u.shape != v.shape:
+        return False
+    if u.dtype.kind in "OUS" or v.dtype.kind in "OUS":
+        return bool(np.all(u == v))
+    return bool(np.all((u == v) | (np.isnan(u) & np.isnan(v)) | (np.abs(u - v) <= rtol * np.maximum(np.abs(u), np.abs(v)))))
+
+
+def pure_call(ck, np, fn, args, what, case, rtol=0.0, kwargs=None):
+    """call fn(*args) twice on array arguments: the arguments must not be modified, the second call must give
+    the same result (no state carried over, no in-place update of something a callback returned), and a call
+    on re-laid-out copies (Fortran order / strided / negative strides / read-only) must give the same values.
+    Returns the first result (or None after a violation)."""
+    kwargs = kwargs or {}
+    arrs = [np.array(a, copy=True) if isinstance(a, np.ndarray) else a for a in args]
+    before = [a.copy() if isinstance(a, np.ndarray) else a for a in arrs]
+    r1 = fn(*arrs, **kwargs)
+    r1c = np.array(r1, copy=True) if not isinstance(r1, tuple) else tuple(np.array(t, copy=True) for t in r1)
+    for i, (a, b) in enumerate(zip(arrs, before)):
+        if isinstance(a, np.ndarray) and not same(np, a, b):
+            ck.violation("argument-modified", f"{what} modified its argument #{i} in place", case)
+            return None
+    r2 = fn(*arrs, **kwargs)
+    pairs = list(zip(r1c, r2)) if isinstance(r1c, tuple) else [(r1c, r2)]
+    if not all(same(np, u, v) for u, v in pairs):
+        ck.violation("not-repeatable", f"{what}: a second identical call returned a different result (state carried over / in-place update)", case)
+        return None
+    laid, tags = [], []
+    for a in before:
+        if isinstance(a, np.ndarray) and a.ndim >= 1:
+            b, t = relayout(np, ck.rng, a)
+            laid.append(b)
+            tags.append(t)
+        else:
+            laid.append(a)
+            tags.append("-")
+    try:
+        r3 = fn(*laid, **kwargs)
+    except Exception as e:            # noqa: BLE001
+        ck.violation("layout-raised", f"{what} raised {type(e).__name__} for the same values in memory layout {tags}: {str(e)[:100]}", dict(case, layout=tags))
+        return None
+    pairs = list(zip(r1c, r3)) if isinstance(r1c, tuple) else [(r1c, r3)]
+    if not all(same(np, u, v, rtol) for u, v in pairs):
+        ck.violation("layout-dependent", f"{what}: the same values in memory layout {tags} give a different result", dict(case, layout=tags))
+        return None
+    ck.count("glue/pure+layout")
+    return r1
